@@ -47,6 +47,18 @@ PROPS = {
              "+ correspondence: pipelines with hostile bytes sent under many segmentations (reply bytes must be identical), deserializer vs model on mutated inputs",
              assumptions=["RespParse.v mirrors respDeserializer.go for the types + - : $ * % ~ # _ ; streamed forms and double/bignum/verbatim/blob/attribute/push requests are outside the modelled subset (only 'no panic' is checked for them)",
                           "the kernel's TCP segmentation only delivers some chunking of the stream, which the theorem quantifies over"]),
+    "C11": P(["PropC11"], ["C11"],
+             "block/wake protocol as a labelled transition system (Wait.v: one label per lock section / channel operation of blockOnListChangeWorker, "
+             "waitTable.go, leaveListBlock, unlockAndUnblock): conservation of elements, list order, wait-table well-formedness, FIFO wake-up, and no lost "
+             "wake-up for every reachable configuration (any number of clients, keys, steps, every interleaving) + hook-driven schedules on the real emulator",
+             partial="Go channel/select semantics and the runtime scheduler are taken as the nondeterminism of the labels; the tie to the code is the schedule-point correspondence, not a proof about Go",
+             assumptions=["a buffered channel of capacity 1 never blocks its single pending send; select may take any ready case"]),
+    "C19": P(["PropC19"], ["C19"],
+             "persistence: snapshot/load round trip, every command either changes nothing or marks the database dirty, saver invariant => restart after any "
+             "history equals the state, crash atomicity of temp-file+rename for every prefix of the write sequence (and the refutation of the original in-place save) "
+             "+ correspondence: histories, save, more changes, save with on-disk copies at every stage (verifPoint), clean shutdown, restart; every copy must load as old or new",
+             partial="encoding/gob round-trips the record types, POSIX rename is atomic, no fsync reasoning: trusted",
+             assumptions=["file system and gob are modelled at record level (Persist.v)"]),
     "C13": P(["PropC13", "PropC06"], ["C13", "C01"],
              "robustness: the parser model has explicit Panic outcomes at every Go indexing site and is proved never to reach one (all byte strings), a parsed "
              "value consumes between 1 and all buffered bytes, the connection loop never panics; every command of the table that fails leaves the state "
@@ -63,9 +75,10 @@ PROPS = {
              "list commands: theorems on the model (index normalisation vs a Redis-style spec, push/pop equations, LMOVE same-key rotation and "
              "conservation, LREM/LINSERT/LPOS specifications, never-empty, errors inert) + correspondence over random histories",
              assumptions=SEQ_ASSUME),
-    "C04": P(["PropC04"], ["C04"],
+    "C04": P(["PropC04", "PropC17"], ["C04", "C17"],
              "hash commands: theorems on the model (hash is a finite map, HINCRBY iff-characterisation for every sign combination, HDEL, reads "
-             "pure, HRANDFIELD candidates) + correspondence; the bucket table itself is covered by C17's Dict model",
+             "pure, HRANDFIELD candidates); the bucket table under every hash is Dict.v (growth and shrink never lose or duplicate a field: PropC17 dictionary layer) "
+             "+ correspondence of replies and of the table layout (real hashes, crafted bucket collisions)",
              assumptions=SEQ_ASSUME),
     "C05": P(["PropC05"], ["C05"],
              "set commands: theorems on the model (SINTER/SUNION/SDIFF are the mathematical operations for any number of operands, operands "
